@@ -781,6 +781,11 @@ class Engine(object):
         site = self.site(body, t["line"])
         arms = t["arms"]
         other = t["otherwise"]
+        if v[0] != "lit":
+            tg = [a[1] for a in arms] + [other]
+            live = [x for x in tg if not (body.blocks[x]["term"]["t"] == "unreachable" and not body.blocks[x]["stmts"])]
+            if live and all(body.pure_tail(x) for x in live):
+                return [(st, live[0])]      # drop glue: the choice cannot influence state or result
         if t["ty"] == "bool":
             # arms: [["0", bbF]] otherwise bbT
             res = []
